@@ -99,7 +99,7 @@ def make_case(index, rng, tier):
     return {"threads": threads, "worker_connections": wc, "keepalive": ka, "clients": clients, "term": term,
             "graceful_timeout": rng.choice([1, 2, 4]), "at_capacity": at_capacity,
             "buggify": {"pyticks": rng.randrange(3) == 0, "short_recv": rng.randrange(3) == 0, "spurious_select": False,
-                        "accept_eagain": rng.randrange(4) == 0},
+                        "accept_eagain": rng.randrange(4) == 0, "accept_econnaborted": rng.randrange(5) == 0},
             "preempt": rng.randrange(0, 6), "fine": rng.choice([0, 0, 0, 2, 4]), "fine_long": rng.randrange(2) == 0}
 
 
